@@ -14,7 +14,7 @@ Proof.
   destruct (p ++ [x; y]) as [|u [|v [|w t]]] eqn:E.
   - destruct p; discriminate.
   - destruct p as [|? [|? ?]]; discriminate.
-  - cbn in IH. injection IH as <- <- <-. destruct p as [|? [|? ?]]; try discriminate. reflexivity.
+  - cbn in IH. injection IH as <- <- <-. reflexivity.
   - cbn [split_last2] in *. rewrite IH. reflexivity.
 Qed.
 
